@@ -18,6 +18,7 @@ c_OnlySD == TRUE
 c_PolyDeg == 1
 c_DiffK == {1}
 c_MaxDeg == 2
+c_EvExp == 0
 c_Invalid == FALSE
 c_MaxHist == 0
 c_RunActs == {"eval", "update"}
@@ -26,7 +27,8 @@ c_GradMod == 0
 c_QueryOn == FALSE
 c_J == 1
 c_EmitOps == {0}
-c_EmitMod == 40
+c_EmitMod == 80
 c_EmitRes == 0
 c_EmitSmall == 0
+c_EmitFilter == "all"
 ====
